@@ -126,7 +126,7 @@ func Run(c *core.Ctx, replay string) (*core.Result, error) {
 		rng := rand.New(rand.NewSource(c.Seed))
 		nRand := 40
 		if c.Thorough() {
-			nRand = 600
+			nRand = 4000
 		}
 		for k := 0; k < nRand; k++ {
 			id++
